@@ -48,6 +48,7 @@ type CircuitBreaker struct {
 	lastFailureTime time.Time
 	lastSuccessTime time.Time
 	nextAttempt     time.Time
+	generation      uint64 // incremented on every state change; identifies a half-open episode
 
 	// state-change notifications recorded under the lock, delivered after it is released
 	pendingNotify []func()
@@ -106,20 +107,20 @@ func NewCircuitBreaker(settings Settings) *CircuitBreaker {
 
 // Execute executes the given function with circuit breaker protection
 func (cb *CircuitBreaker) Execute(fn func() error) error {
-	err := cb.beforeRequest()
+	trial, err := cb.beforeRequest()
 	if err != nil {
 		return err
 	}
 
 	defer func() {
 		if r := recover(); r != nil {
-			cb.afterRequest(false)
+			cb.afterRequest(trial, false)
 			panic(r)
 		}
 	}()
 
 	err = fn()
-	cb.afterRequest(err == nil)
+	cb.afterRequest(trial, err == nil)
 	return err
 }
 
@@ -128,8 +129,10 @@ func (cb *CircuitBreaker) Call(fn func() error) error {
 	return cb.Execute(fn)
 }
 
-// beforeRequest checks if the request can proceed with optimized locking
-func (cb *CircuitBreaker) beforeRequest() error {
+// beforeRequest checks if the request can proceed with optimized locking.
+// For a request admitted as a half-open trial it returns the generation of
+// that half-open episode, otherwise 0.
+func (cb *CircuitBreaker) beforeRequest() (uint64, error) {
 	now := time.Now()
 
 	// Fast path: read-only check for most common case (StateClosed)
@@ -151,7 +154,7 @@ func (cb *CircuitBreaker) beforeRequest() error {
 			}
 			cb.mutex.Unlock()
 		}
-		return nil
+		return 0, nil
 	}
 
 	// Open and half-open: the admission decision and the trial counter must
@@ -163,7 +166,7 @@ func (cb *CircuitBreaker) beforeRequest() error {
 }
 
 // admitSlow decides admission for a breaker that was seen open or half-open.
-func (cb *CircuitBreaker) admitSlow(now time.Time) error {
+func (cb *CircuitBreaker) admitSlow(now time.Time) (uint64, error) {
 	cb.mutex.Lock()
 
 	if cb.state == StateOpen && cb.nextAttempt.Before(now) {
@@ -173,6 +176,7 @@ func (cb *CircuitBreaker) admitSlow(now time.Time) error {
 	}
 
 	var err error
+	var trial uint64
 	switch cb.state {
 	case StateClosed:
 		// closed meanwhile by a successful trial: admit
@@ -180,7 +184,8 @@ func (cb *CircuitBreaker) admitSlow(now time.Time) error {
 		if cb.requestCount >= cb.maxRequests {
 			err = ErrTooManyRequests
 		} else {
-			cb.requestCount++ // this request is a trial
+			cb.requestCount++ // this request is a trial of the current episode
+			trial = cb.generation
 		}
 	default:
 		err = ErrCircuitBreakerOpen
@@ -189,11 +194,11 @@ func (cb *CircuitBreaker) admitSlow(now time.Time) error {
 	notify := cb.takeNotifications()
 	cb.mutex.Unlock()
 	runNotifications(notify)
-	return err
+	return trial, err
 }
 
 // afterRequest updates the circuit breaker state after a request
-func (cb *CircuitBreaker) afterRequest(success bool) {
+func (cb *CircuitBreaker) afterRequest(trial uint64, success bool) {
 	cb.mutex.Lock()
 	defer func() {
 		notify := cb.takeNotifications()
@@ -209,6 +214,13 @@ func (cb *CircuitBreaker) afterRequest(success bool) {
 		case StateClosed:
 			// Stay closed
 		case StateHalfOpen:
+			// Only trials of this half-open episode count. A slow request that
+			// was admitted while the breaker was still CLOSED (or during an
+			// earlier episode) says nothing about the backend now; counting it
+			// could close the breaker although no trial has succeeded.
+			if trial != cb.generation {
+				break
+			}
 			cb.successCount++
 			if cb.successCount >= cb.successThreshold {
 				cb.setState(StateClosed)
@@ -244,6 +256,7 @@ func (cb *CircuitBreaker) setState(state State) {
 
 	prev := cb.state
 	cb.state = state
+	cb.generation++ // never 0 once a state change has happened
 
 	if cb.onStateChange != nil {
 		name, callback := cb.name, cb.onStateChange
